@@ -618,10 +618,6 @@ def flex_layout(context, box, bottom_space, skip_stack, containing_block, page_i
             justify_content = ('flex-end',)
         elif 'flex-end' in justify_content:
             justify_content = ('flex-start',)
-        elif 'start' in justify_content:
-            justify_content = ('end',)
-        elif 'end' in justify_content:
-            justify_content = ('start',)
 
     for line in flex_lines:
         position_main = original_position_main
